@@ -6,7 +6,9 @@ use crate::util::report::{finish, Ctx, Meta, Report, ReportData};
 use std::path::PathBuf;
 
 pub mod c01;
+pub mod c03;
 pub mod c04;
+pub mod c05;
 pub mod c06;
 pub mod c07;
 pub mod c08;
@@ -30,7 +32,9 @@ pub struct CheckDef {
 pub fn registry() -> Vec<CheckDef> {
     vec![
         c01::def(),
+        c03::def(),
         c04::def(),
+        c05::def(),
         c06::def(),
         c07::def(),
         c08::def(),
@@ -170,5 +174,5 @@ pub fn selftest() -> i32 {
 
 /// judges that run inside worker children (`rpmverif worker <name>`)
 pub fn worker_judges() -> Vec<(&'static str, crate::monitor::worker::Judge)> {
-    vec![("c04", c04::judge_c04), ("c01", c01::judge_c01)]
+    vec![("c04", c04::judge_c04), ("c01", c01::judge_c01), ("c03", c03::judge_c03)]
 }
